@@ -26,7 +26,7 @@ theorem exact (t : Table) (hc : t.complete = true) (ty : Ty) (v : Val) (h : HasT
 
 /-- `NEEDS_TRACE` is true whenever a stored, non-`'static` parameter's is. -/
 theorem needs_trace_mono (t : Table) (hc : t.complete = true) (e : Nat) (en : Entry)
-    (he : t.entry? e = some en) (args : Nat → Ty) (k : Nat) (hk : k ∈ en.shape.stored)
+    (he : t.entry? e = some en) (args : Nat → Ty) (k : Nat) (hk : k ∈ en.held)
     (hns : en.isStaticAt k = false) (hn : needsTrace t (args k) = true) :
     needsTrace t (.app e args) = true := by
   obtain ⟨hent, _, _⟩ := Table.complete_unpack hc
@@ -37,6 +37,53 @@ theorem needs_trace_mono (t : Table) (hc : t.complete = true) (e : Nat) (en : En
     · exact Or.inl hd
     · exact Or.inr ⟨k, by simpa using hd, hn⟩
   · rw [hns] at hs; cases hs
+
+/-- **Nothing branded hides from the tracer.**  For every table satisfying `Table.untracedStatic`
+— every type parameter of every impl that can occur in a field of the value is traced or bounded by
+`'static` (a bare `'gc` bound does not count), the others are phantom-only, no lifetime of the self
+type is free — and every well-typed container value: each component the impl's `trace` does *not*
+visit has a `'static` type, hence contains no arena pointer (and, `'static` being the absence of any
+brand, no `&'gc T` either).  So the "contained pointers" of `exact` are *all* the contained
+pointers: there is no component outside the reach of the statement. -/
+theorem no_hidden_brand (t : Table) (hu : t.untracedStatic = true) (e : Nat) (en : Entry)
+    (he : t.entry? e = some en) (args : Nat → Ty) (len : Nat) (pos : Nat → Nat) (elem : Nat → Val)
+    (h : HasType t (.node len pos elem) (.app e args)) (j : Nat) (hj : j < len)
+    (hnt : en.traced.contains (pos j) = false) :
+    isStatic t (args (pos j)) = true ∧ ptrsOf (elem j) = [] := by
+  exact CollectTy.no_hidden_brand t hu e en he args len pos elem h j hj hnt
+
+/-- The table extracted from the current source tree satisfies the rule (every provided impl,
+feature-gated ones included). -/
+theorem untraced_static_ok : Generated.collectTable.untracedStatic = true := by decide +kernel
+
+open GcArena.CollectTy.Example in
+/-- The delivered mutant `S: 'static` ↦ `S: 'gc` on `Collect for HashMap<K, V, S>`: the crate's
+entry is accepted, the mutated one is rejected by `untracedStatic` (and by `complete`), and under it
+a hasher state holding `Gc` number 5 is a well-typed value whose pointer the impl never reports. -/
+theorem mutant_witness :
+    hmCurrent.untracedStatic = true ∧ hmCurrent.complete = true ∧
+    hmMutant.untracedStatic = false ∧ hmMutant.complete = false ∧
+    HasType (mini hmMutant) hasherHolds brandedHasher ∧
+    traceProvided (mini hmMutant) brandedHasher hasherHolds = [] ∧
+    ptrsOf hasherHolds = [(5, true)] ∧
+    ¬ HasType (mini hmCurrent) hasherHolds brandedHasher := by
+  refine ⟨by decide, by decide, by decide, by decide, ?_, by decide, by decide, ?_⟩
+  · simp only [hasherHolds, brandedHasher, HasType]
+    refine ⟨hmMutant, by decide, ?_, ?_⟩
+    · intro k hk _
+      simp [hmMutant, hm, Entry.isStaticAt] at hk
+    · intro j hj
+      have : j = 0 := by omega
+      subst this
+      refine ⟨by decide, by decide, ?_⟩
+      simp [HasType]
+  · simp only [hasherHolds, brandedHasher, HasType]
+    rintro ⟨en, hen, hb, _⟩
+    have : en = hmCurrent := by
+      simp [mini, Table.entry?] at hen; exact hen.symm
+    subst this
+    have := hb 2 (by decide) (by decide)
+    simp [isStatic] at this
 
 /-- The table extracted from the current source tree is complete. -/
 theorem table_complete : Generated.collectTable.complete = true := by decide +kernel
